@@ -100,7 +100,16 @@ func (x *Exec) callCommon(fr *frame, ins ssa.CallInstruction, c *ssa.CallCommon,
 		return res, r
 	}
 	if cs.Class != "" && x.over != nil {
-		// mode A: an effectful callee is not looked into
+		// mode A: an effectful callee is not looked into; its precondition is still the caller's duty
+		if f, ok := c.Value.(*ssa.Function); ok && fr.top {
+			if ct := x.eng.contracts[x.eng.fnKey(f)]; ct != nil && len(ct.Requires) > 0 {
+				before := st.clone()
+				env := x.calleeEnv(f, ct, args, &before, &before)
+				for k, rq := range ct.Requires {
+					x.vc.oblige(fmt.Sprintf("%s#pre-at-call:%s#%d.%d", x.eng.fnKey(fr.fn), x.eng.fnKey(f), cs.Ord, k+1), "pre-at-call", r, x.evalBool(env, rq.Expr), x.eng.pos(cs.Pos))
+				}
+			}
+		}
 		res = x.havocCall(name, resT, args, argVals, st, r)
 		cs.Res = res
 		return res, r
@@ -129,7 +138,7 @@ func (x *Exec) callCommon(fr *frame, ins ssa.CallInstruction, c *ssa.CallCommon,
 			cs.Res = res
 			return res, r
 		}
-		if ct := x.eng.contracts[x.eng.fnKey(fn)]; ct != nil && len(ct.Ensures)+len(ct.Requires)+len(ct.Modifies) > 0 && fn != x.top {
+		if ct := x.eng.contracts[x.eng.fnKey(fn)]; ct != nil && len(ct.Ensures)+len(ct.Requires)+len(ct.Modifies) > 0 && fn != x.top && !x.noModular {
 			res, r = x.callContract(fr, cs, fn, ct, args, st, r)
 			cs.Res = res
 			return res, r
